@@ -291,9 +291,9 @@ func runC01(w *core.World, r *core.Report) {
 			// the nil alternative only when OutputSize == 0
 			for _, b := range fn.Blocks {
 				for _, in := range b.Instrs {
-					if bo, ok := in.(*ssa.BinOp); ok && bo.Op == token.GTR {
-						if _, f, ok := core.LoadedField(bo.X); ok && f == "OutputSize" {
-							if k, ok := core.ConstInt(bo.Y); ok && k == 0 {
+					if bo, ok := in.(*ssa.BinOp); ok {
+						if x, op, k, ok := core.CmpConst(bo); ok && k == 0 && (op == token.GTR || op == token.NEQ) {
+							if _, f, ok := core.LoadedField(x); ok && f == "OutputSize" {
 								okGuard = true
 							}
 						}
@@ -392,9 +392,13 @@ func runC01(w *core.World, r *core.Report) {
 					for _, bb := range ck.Blocks {
 						for _, in := range bb.Instrs {
 							if bo, ok := in.(*ssa.BinOp); ok {
-								if _, f, ok := core.LoadedField(bo.X); ok && f == "outputSize" {
-									if k, ok := core.ConstInt(bo.Y); ok && k == 0 {
-										switch bo.Op {
+								x0, op0, k0, okc := core.CmpConst(bo)
+								if !okc {
+									continue
+								}
+								if _, f, ok := core.LoadedField(x0); ok && f == "outputSize" {
+									if k0 == 0 {
+										switch op0 {
 										case token.GTR, token.NEQ:
 											cut.AddEdge(core.EdgesWhere(bo, false)...)
 										case token.EQL:
